@@ -15,8 +15,10 @@ Z5  zernikeArray: list and count dispatch call zernike_noll with the same traili
     function of that mode only  =>  list build == matching slices of the count build
 Z6  phaseFromZernikes == sum_z Zs[z] * zCoeffs[z] over all coefficients (degree 1),
     norm and rot forwarded
-Not decided: bijectivity of the Noll map, orthonormality / RMS / P2V values, gamma
-matrices versus true gradients.
+Z8  the gamma-matrix rule bodies agree with Noll's derivative rules (a)-(d) on every case of
+    the finite comparison abstraction (see c12_gammas.py)
+Not decided: bijectivity of the Noll map, orthonormality / RMS / P2V values, the mode
+ordering inside makegammas, gamma matrices versus numerical gradients.
 """
 import ast
 import importlib
@@ -348,4 +350,7 @@ def run(rep, tier, root=None):
     else:
         check_equal(rep, "Z6.linear-combination", f.fq + " == sum_z Zs[z]*zCoeffs[z], Zs = zernikeArray(len, size, norm, rot)", got[0][1], want,
                     f.where(), what="phase from coefficients")
+    # ---------------------------------------------------------------- Z8 gamma matrices
+    from . import c12_gammas
+    c12_gammas.check(rep, ix, F("makegammas"))
     rep.floor("C12 obligations", len(rep.obligations), 30)
